@@ -28,6 +28,7 @@ func listGo(dir string) ([]string, error) {
 func extraFacts() {
 	c10WriteFacts() // C10 panic-site / construction-site facts (c10.go): .facts.C10.json
 	c19Facts() // C19 write-set extractor (c19.go): writeSites / writeSetInfo in .facts.json
+	c11AliasFacts() // C11 alias-discipline extractor (c11.go): aliasFactsAll in .facts.json, aliasFacts / aliasWriters in Facts.lean
 }
 
-func writeExtra(b *strings.Builder) {}
+func writeExtra(b *strings.Builder) { c11WriteLean(b) }
